@@ -228,10 +228,12 @@ fn one(line: &str) -> String {
     unsafe { VP_TARGET_PTR = target; }
     let mut inj = InjectorPP::new();
     let mut fake_addr = vp_fake as usize as u64;
-    if mode == "far" {
+    if mode == "far" || mode == "odd" {
         // a thunk more than 2 GiB away from the trampoline: movabs rax, vp_fake ; jmp rax
-        let base = 0x300000000000u64;
+        // ("odd": the thunk starts at an ODD address, right after a one-byte `ret` of a preceding routine: packed, hand-placed code)
+        let base = if mode == "odd" { 0x300000100000u64 } else { 0x300000000000u64 };
         let a = arena::Arena::at(base, 1).expect("far arena");
+        let base = if mode == "odd" { unsafe { *(base as *mut u8) = 0xC3; } base + 1 } else { base };
         unsafe {
             let p = base as *mut u8;
             *p = 0x48; *p.add(1) = 0xB8;
